@@ -18,3 +18,29 @@ class MyFuzzyOr(FuzzyOr):
 class MySum(Sum):
     inputs = {"InFieldNames": params.ListParameter(params.ResultParameter(params.DataParameter(), is_fuzzy=False))}
     output = params.DataParameter()
+
+
+import numpy  # noqa: E402
+from mpilot.commands import Command  # noqa: E402
+
+
+class GenericOut(Command):
+    """Declares the generic parameter as its output kind: not data."""
+
+    inputs = {}
+    output = params.Parameter()
+
+    def execute(self, **kwargs):
+        return numpy.ma.array([1.0, 2.0])
+
+
+class SubDataParameter(params.DataParameter):
+    """A specialised data kind: still data."""
+
+
+class SubDataOut(Command):
+    inputs = {"InFieldName": params.ResultParameter(params.DataParameter())}
+    output = SubDataParameter()
+
+    def execute(self, **kwargs):
+        return kwargs["InFieldName"].result.copy()
